@@ -114,7 +114,7 @@ def main():
             results[name] = row
         finally:
             open(path, "w").write(src)
-            sh("rm -rf /verif/replays; git -C /repo clean -fdq")
+            sh("rm -rf /verif/replays; git -C /repo clean -fdq; git -C /verif checkout -- evidence")
     assert sh("git -C /repo status --porcelain").stdout.strip() == "", "restore failed"
     json.dump(results, open("/var/tmp/mutants_result.json", "w"), indent=1)
 
